@@ -6,7 +6,7 @@
    (C07).  That the implementation's analyser agrees with this checker on every position is decided by
    differential acceptance testing; the class-related rules are checked against their text only. *)
 From Coq Require Import List ZArith String Ascii Bool.
-From Bloch Require Import Lang.Syntax Lang.Eval Lang.Typing.
+From Bloch Require Import Lang.Soundness Lang.Syntax Lang.Eval Lang.Typing.
 Import ListNotations.
 
 Theorem C16_a_block_is_accepted_only_if_every_statement_is :
@@ -37,20 +37,23 @@ Print Assumptions C16_a_statement_list_is_checked_left_to_right_in_the_growing_e
 Theorem C16_branches_and_loop_parts_are_checked :
   forall sigs ret G,
     (forall c a b, check_stmt sigs ret G (SIf c a b) <> None ->
-        (exists t, type_expr sigs G c = Some t /\ boolish t = true) /\ check_stmt sigs ret ([] :: G) a <> None /\
-        match b with Some b' => check_stmt sigs ret ([] :: G) b' <> None | None => True end) /\
+        (exists t, type_expr sigs G c = Some t /\ boolish t = true) /\ check_stmt sigs ret G a <> None /\
+        match b with Some b' => check_stmt sigs ret G b' <> None | None => True end) /\
     (forall c body, check_stmt sigs ret G (SWhile c body) <> None ->
-        (exists t, type_expr sigs G c = Some t /\ boolish t = true) /\ check_stmt sigs ret ([] :: G) body <> None).
+        (exists t, type_expr sigs G c = Some t /\ boolish t = true) /\ check_stmt sigs ret G body <> None).
 Proof.
   intros sigs ret G. split.
   - intros c a b H. cbn [check_stmt] in H. destruct (type_expr sigs G c) as [t|]; [|congruence].
-    destruct (boolish t) eqn:B; [|cbn in H; congruence]. cbn in H.
-    destruct (check_stmt sigs ret ([] :: G) a); [|cbn in H; congruence]. cbn in H.
+    destruct (boolish t) eqn:B; [|cbn in H; congruence]. cbn [andb] in H.
+    destruct (is_decl a); [cbn in H; congruence|]. cbn [negb andb] in H.
+    destruct (check_stmt sigs ret G a); [|cbn in H; congruence]. cbn [andb] in H.
     split; [eauto|]. split; [discriminate|].
-    destruct b as [b'|]; [|exact I]. destruct (check_stmt sigs ret ([] :: G) b'); [discriminate | cbn in H; congruence].
+    destruct b as [b'|]; [|exact I]. destruct (is_decl b'); [cbn in H; congruence|]. cbn [negb andb] in H.
+    destruct (check_stmt sigs ret G b'); [discriminate | cbn in H; congruence].
   - intros c body H. cbn [check_stmt] in H. destruct (type_expr sigs G c) as [t|]; [|congruence].
-    destruct (boolish t) eqn:B; [|cbn in H; congruence]. cbn in H.
-    destruct (check_stmt sigs ret ([] :: G) body); [|cbn in H; congruence]. split; [eauto | discriminate].
+    destruct (boolish t) eqn:B; [|cbn in H; congruence]. cbn [andb] in H.
+    destruct (is_decl body); [cbn in H; congruence|]. cbn [negb andb] in H.
+    destruct (check_stmt sigs ret G body); [|cbn in H; congruence]. split; [eauto | discriminate].
 Qed.
 Print Assumptions C16_branches_and_loop_parts_are_checked.
 
@@ -71,3 +74,12 @@ Theorem C16_an_undeclared_name_is_never_typeable :
   forall sigs G x, t_lookup x G = None -> type_expr sigs G (EVar x) = None.
 Proof. intros sigs G x H. cbn. now rewrite H. Qed.
 Print Assumptions C16_an_undeclared_name_is_never_typeable.
+
+(* whole programs: whatever the fuel, a class-free program accepted by the reference checker finishes, runs out of
+   fuel, or ends with a documented runtime error (or a result flagged as outside the documentation) - it never
+   reaches an operation the semantics does not define *)
+Theorem C16_the_static_rules_suffice_for_defined_behaviour :
+  forall F (O : fops F) p fuel, check_program p = true -> p_classes p = [] ->
+    forall why, snd (run O fuel p) <> Failed (RStuck why).
+Proof. exact @checked_programs_never_get_stuck. Qed.
+Print Assumptions C16_the_static_rules_suffice_for_defined_behaviour.
